@@ -143,7 +143,11 @@ func verifC14_client() {
 	if refOK {
 		e := exts[0]
 		good := vEqStr(e.name, "permessage-deflate")
-		c, s = offered.clientNoContextTakeover, offered.serverNoContextTakeover
+		// The agreement is what the response says. The client may always refrain from context takeover on its own
+		// side (c starts from what it offered), but whether the SERVER keeps its context is decided by the response
+		// alone: a client that drops its window although the response does not carry server_no_context_takeover cannot
+		// decode the second message of a server that applies the agreement.
+		c, s = offered.clientNoContextTakeover, false
 		for _, p := range e.params {
 			isCN := vEqStr(p, "client_no_context_takeover")
 			isSN := vEqStr(p, "server_no_context_takeover")
@@ -234,4 +238,52 @@ func verifC14_dir() {
 	vReach("C14.dir.checked")
 	vCheckDir(o, &o2)
 	vObserve("dir", o.clientNoContextTakeover, o.serverNoContextTakeover)
+}
+
+// C14.foreign: a client of every compression mode receives an honourable response from a foreign server; a reference
+// server that applies exactly the parameters of its response (it keeps its compression context from message to message
+// unless the response carries server_no_context_takeover) then sends two compressed messages, the second referring back
+// into the first iff it keeps its context. The client, built from what verifyServerExtensions returned, decodes both.
+func verifC14_foreign() {
+	vInstallRand()
+	mode := CompressionMode(1 + vChoose("mode", 2))
+	resp := []string{
+		"permessage-deflate",
+		"permessage-deflate; client_no_context_takeover",
+		"permessage-deflate; server_no_context_takeover",
+		"permessage-deflate; client_no_context_takeover; server_no_context_takeover",
+		"permessage-deflate; server_max_window_bits=15",
+	}[vChoose("resp", 5)]
+	vClassify("client-mode", []string{"", "context-takeover", "no-context-takeover"}[mode])
+	vClassify("response", resp)
+	h := http.Header{}
+	h.Set("Sec-WebSocket-Extensions", resp)
+	copts, err := verifyServerExtensions(mode.opts(), h)
+	vAssert(vAnd(err == nil, copts != nil), "C14.foreign.accepted")
+	if err != nil || copts == nil {
+		return
+	}
+	serverKeepsContext := !strings.Contains(resp, "server_no_context_takeover")
+	data := vBytes("data", 2)
+	frames := vDataFrames(vStored(data, []int{2}, false), nil, 2, true, true)
+	var second []byte
+	if serverKeepsContext {
+		frames = append(frames, vDataFrames(vBackrefProbe, nil, 1, true, true)...)
+		second = []byte{data[1], data[1], data[1]}
+		vReach("C14.foreign.server-keeps-context")
+	} else {
+		second = vBytes("second", 2)
+		frames = append(frames, vDataFrames(vStored(second, []int{2}, false), nil, 1, true, true)...)
+		vReach("C14.foreign.server-resets-context")
+	}
+	t := vNewTransport(vEncodeFrames(frames))
+	c := vNewConn(t, true, copts, 64, 256)
+	g := vReadLoop(c, 6, 3)
+	ok := len(g.msgs) == 2
+	if ok {
+		ok = vAnd(vEqBytes(g.msgs[0], data), vEqBytes(g.msgs[1], second))
+	}
+	vAssert(ok, "C14.foreign.client-decodes-what-the-server-compresses")
+	c.CloseNow()
+	vObserve("c14foreign", int(mode), resp, len(g.msgs))
 }
